@@ -440,8 +440,8 @@ func (r *UnitRun) evalBuiltin(st *State, name string, e *ast.CallExpr) Val {
 // srcElemTerm: the element at relative position p of a slice, read through its zero-based view when that is still valid
 // (so that facts stated over the view apply without arithmetic in trigger positions)
 func (r *UnitRun) srcElemTerm(st *State, s *SliceVal, p string) string {
-	if s.View != "" && r.sliceArr(st, s) == s.viewOf {
-		return sx("select", s.View, p)
+	if v, ok := r.lookupView(st, s); ok {
+		return sx("select", v, p)
 	}
 	return sx("select", r.sliceArr(st, s), add(s.Off, p))
 }
